@@ -472,6 +472,24 @@ func init() {
 				}
 				out = append(out, sc)
 			}
+			// an application that commits through a listener context it received before a rebalance: what is written is the
+			// position of the session that is open now
+			xr := rand.New(rand.NewSource(seed*73 + 2))
+			for j := 0; j < n/20; j++ {
+				sp := &SessSpec{NumVB: 2 + xr.Intn(4), Nodes: 1, AckSeed: xr.Int63(), Backlog: map[int][][]ItemSpec{}, Backend: []string{"mem", "cb", "file"}[j%3], API: true,
+					Membership: "dynamic", FirstInfo: [2]int{1, 1}, PNow: 0, PDefer: 1}
+				o := &HistOpts{NumVB: sp.NumVB, PSystem: 0.05, PSeqAdv: 0.1, MaxItems: 4}
+				ctr := 0
+				for vb := 0; vb < sp.NumVB; vb++ {
+					sp.Backlog[vb] = append(sp.Backlog[vb], genSnap(xr, o, &ctr))
+				}
+				sp.Steps = []Step{{Op: "barrier"}, {Op: "ack", Sel: "all"}, {Op: "commit"}, {Op: "rebalanceapi"}, {Op: "waitrebalance", N: 1}, {Op: "barrier"}}
+				for vb := 0; vb < sp.NumVB; vb++ {
+					sp.Steps = append(sp.Steps, Step{Op: "append", VB: vb, Items: genSnap(xr, o, &ctr)})
+				}
+				sp.Steps = append(sp.Steps, Step{Op: "barrier"}, Step{Op: "ack", Sel: "all"}, Step{Op: "commitold"}, Step{Op: "read"}, Step{Op: "check"})
+				out = append(out, drv.Scenario{Kind: "old-context", Seed: seed, Params: mustJSON(sp), TimeoutS: 120, Solo: true})
+			}
 			return out
 		},
 		Run: func(sc drv.Scenario) drv.Result {
